@@ -99,7 +99,7 @@ theorem digestFromField_keep (o : Opts) (f : Bytes) : KeepHdr (digestFromField o
 theorem newHttpBlock_keep (o : Opts) (Ω : Oracles) (c : Bytes) (bd pd : Digest) (h : RepairsOff o) :
     KeepHdr (newHttpBlock o Ω c bd pd) := by
   unfold newHttpBlock
-  simp only [h.fixSyn, Bool.and_false, Bool.false_eq_true, ↓reduceIte]
+  simp only [h.fixSyn, Bool.and_false, Bool.false_and, Bool.false_eq_true, ↓reduceIte]
   keephdr
 
 theorem wfFindings_keep (l : List Tag) : KeepHdr (wfFindings l) := by
@@ -182,7 +182,7 @@ theorem parseBlock_raw (o : Opts) (Ω : Oracles) (rt : Nat) (c : Bytes) (fault :
   · -- http
     simp only [c1, ↓reduceIte] at h
     unfold newHttpBlock at h
-    simp only [hfix, Bool.and_false, Bool.false_eq_true, ↓reduceIte] at h
+    simp only [hfix, Bool.and_false, Bool.false_and, Bool.false_eq_true, ↓reduceIte] at h
     obtain ⟨_, t1, _, h⟩ := bind_ok _ _ _ _ _ h
     obtain ⟨_, t2, _, h⟩ := bind_ok _ _ _ _ _ h
     obtain ⟨_, t3, _, h⟩ := bind_ok _ _ _ _ _ h
@@ -237,8 +237,10 @@ theorem unmarshalTail_observes (o : Opts) (Ω : Oracles) (vt : Bytes) (vi : Nat)
   have k4 : s4.hdr = s3.hdr := keep_of_eq (parseBlock_keep o Ω _ _ _ hrep) h4
   obtain ⟨_, s5, h5, h⟩ := bind_ok _ _ _ _ _ h
   have k5 : s5.hdr = s4.hdr := keep_of_eq (validateDigest_keep H o _ _ _ hrep) h5
+  obtain ⟨_, s5b, h5b, h⟩ := bind_ok _ _ _ _ _ h
+  have k5b : s5b.hdr = s5.hdr := keep_of_eq (KeepHdr.condFail _ _) h5b
   obtain ⟨_, s6, h6, h⟩ := bind_ok _ _ _ _ _ h
-  have k6 : s6.hdr = s5.hdr := keep_of_eq (KeepHdr.condSite _ o.spec Tag.specTrailer) h6
+  have k6 : s6.hdr = s5b.hdr := keep_of_eq (KeepHdr.condSite _ o.spec Tag.specTrailer) h6
   obtain ⟨hd2, s7, h7, h⟩ := bind_ok _ _ _ _ _ h
   simp only [M.hdr_def, Prod.mk.injEq, Except.ok.injEq] at h7
   simp only [M.pure_def, Prod.mk.injEq, Except.ok.injEq, Option.some.injEq] at h
@@ -247,7 +249,7 @@ theorem unmarshalTail_observes (o : Opts) (Ω : Oracles) (vt : Bytes) (vi : Nat)
   have hraw := parseBlock_raw o Ω _ _ _ _ _ _ hrep.fixSyn hwf h4
   constructor
   · rw [← h.1.1]; simp only
-    rw [← h7.1, k6, k5, k4, ← h3.2, k2, hfs]
+    rw [← h7.1, k6, k5b, k5, k4, ← h3.2, k2, hfs]
   · rw [← h.1.1]; simp only
     rw [hraw, hhd]; rfl
 
